@@ -188,7 +188,7 @@ class Recorder:
             else:
                 self.extra.setdefault(k, v)
 
-    def parallel(self, worker, items, procs=None, timeout_s=None):
+    def parallel(self, worker, items, procs=None, timeout_s=None, item_budget_s=None):
         """Runs worker(sub_recorder, item) for every item, each in a FRESH python process (z3 state does
         not accumulate and is never forked), and merges the results. A worker that dies or times
         out is a harness error (never a pass). worker must be a module-level function."""
@@ -208,9 +208,9 @@ class Recorder:
             out = os.path.join(sd, "w_%s_%d_%d.json" % (self.pid, os.getpid(), k))
             cmd = [sys.executable, "-m", "vt.worker", worker.__module__, worker.__name__, self.pid, json.dumps(it), out]
             try:
-                r = subprocess.run(cmd, cwd=VERIF, env=env, capture_output=True, text=True, timeout=timeout_s or 3000)
+                r = subprocess.run(cmd, cwd=VERIF, env=env, capture_output=True, text=True, timeout=item_budget_s or timeout_s or 3000)
             except subprocess.TimeoutExpired:
-                return it, None, "timeout"
+                return it, None, "timeout" if not item_budget_s else "BUDGET"
             if not os.path.exists(out):
                 return it, None, "exit %d: %s" % (r.returncode, (r.stderr or "")[-400:])
             d = json.load(open(out))
@@ -219,7 +219,10 @@ class Recorder:
 
         with ThreadPoolExecutor(max_workers=procs) as ex:
             for it, d, err in ex.map(one, list(enumerate(items))):
-                if d is None:
+                if d is None and err == "BUDGET":
+                    # a stated per-item time budget: the item is inconclusive (listed), not a failure of the machinery
+                    self.oblig("work item %s" % (str(it)[:160],), INCONCLUSIVE, "time budget of %ds exceeded" % item_budget_s, item_budget_s, str(it)[:80])
+                elif d is None:
                     self.error("worker for %r failed: %s" % (it, err))
                 else:
                     self.merge(d)
